@@ -5,7 +5,7 @@
    over every configuration (threshold, interval, panicking tasks), every number of
    clients and every schedule. *)
 From Coq Require Import List ZArith Bool Permutation.
-From GZ Require Import C11.Model C11.ProofsA C11.Proofs.
+From GZ Require Import C11.Model C11.ProofsA C11.Proofs C11.ProofsB.
 Import ListNotations.
 Open Scope Z_scope.
 
@@ -107,6 +107,57 @@ Theorem wait_covers_prior_adds_with_multiplicity : forall cfg n pre w mid,
 Proof. exact wait_covers_l. Qed.
 Print Assumptions wait_covers_prior_adds_with_multiplicity.
 
+(* An explicit Flush: for every schedule, if client w (idle) calls Flush in state s0 and the call
+   has returned in s1, every task accepted by Add before the call — with multiplicity — is out of
+   the container: passed to a callback that returned or panicked (in particular everything the
+   Flush itself removed: its caller is idle again), or in the hands of ANOTHER thread that removed
+   it earlier (a producer that reached the threshold, the flusher, another Flush/Wait caller).
+   No hypothesis on what the other threads do meanwhile.  (That the Flush need not wait for those
+   other hands is the difference between Flush and Wait: [ex_flush_leaves_other_hands].) *)
+Theorem flush_covers_prior_adds : forall cfg n pre w mid,
+  let s0 := run cfg (init n) pre in
+  let s1 := run cfg s0 (EvCall w CFlush :: mid) in
+  nth_error (cl s0) w = Some CIdle ->
+  no_call_of w mid ->
+  nth_error (cl s1) w = Some CIdle ->
+  forall a, (count_occ Z.eq_dec (accepted s0) a <= count_occ Z.eq_dec (out_of_container s1) a)%nat.
+Proof. exact flush_covers_l. Qed.
+Print Assumptions flush_covers_prior_adds.
+
+(* ... with distinct tasks: none of them is still in the container *)
+Theorem flush_leaves_no_prior_task_in_container : forall cfg n pre w mid,
+  let s0 := run cfg (init n) pre in
+  let s1 := run cfg s0 (EvCall w CFlush :: mid) in
+  nth_error (cl s0) w = Some CIdle ->
+  no_call_of w mid ->
+  nth_error (cl s1) w = Some CIdle ->
+  NoDup (accepted s1) ->
+  forall a, In a (accepted s0) -> In a (out_of_container s1) /\ ~ In a (cont s1).
+Proof. exact flush_empties_l. Qed.
+Print Assumptions flush_leaves_no_prior_task_in_container.
+
+(* The buffers of bulkContainer / chunkContainer / dbInserter (Model.buf_step: AddTask appends to
+   the collecting slice — in place while the backing array has room, else into a new array, with
+   any growth policy gr; RemoveAll returns the slice and continues with nil): for every history of
+   the container, a batch returned by RemoveAll reads the same at any later time — whatever is
+   added and removed afterwards, however long its callback holds it.  (The LTS above moves task
+   lists by value; this is what justifies it for the Go slices.  Refuted for the buffer-swapping
+   variant of seeded change C11-3: Pinned.buffer_swap_refuted.) *)
+Theorem batch_content_stable : forall gr ops1 ops2,
+  let st1 := buf_run gr buf_init ops1 in
+  let st2 := buf_run gr st1 ops2 in
+  forall sl, In sl (b_out st1) -> In sl (b_out st2) /\ view (b_heap st2) sl = view (b_heap st1) sl.
+Proof. exact batch_stable_l. Qed.
+Print Assumptions batch_content_stable.
+
+(* ... and the batches handed out, in order, followed by what is still being collected, are exactly
+   the tasks added, in order: every task in exactly one batch *)
+Theorem batches_partition_added_tasks : forall gr ops,
+  let st := buf_run gr buf_init ops in
+  concat (map (view (b_heap st)) (b_out st)) ++ cur_view st = added ops.
+Proof. exact buf_contents_l. Qed.
+Print Assumptions batches_partition_added_tasks.
+
 (* ---- non-vacuity: concrete schedules meeting the hypotheses ---- *)
 Definition ex_cfg : config := mkCfg 2 1000 [].
 (* Add 1 (starts the flusher), Add 2 reaches the threshold and is handed over and
@@ -148,4 +199,35 @@ Example ex_quit_restart :
               EvCall 0 (CAdd 2 1); EvC 0] in
   guarded s = true /\ fl s = [BStop; BStart] /\ cont s = [2] /\ executed s = [[1]] /\
   fl (exec ex_cfg s (EvB 0 false)) = [BExit FEnter; BStart].
+Proof. vm_compute. repeat split; reflexivity. Qed.
+
+(* Flush vs Wait: in the state of [ex_wait_hypotheses] (flusher parked before the callback on
+   [1;2], 3 in the container) client 1 calls Flush: it runs [3] and returns while [1;2] is still
+   in the flusher's hands — out of the container, not yet executed *)
+Example ex_flush_leaves_other_hands :
+  let s0 := run ex_cfg (init 2) ex_pre in
+  let s1 := run ex_cfg s0 (EvCall 1 CFlush :: [EvC 1; EvC 1; EvC 1; EvC 1]) in
+  nth_error (cl s0) 1%nat = Some CIdle /\ cont s0 = [3] /\
+  nth_error (cl s1) 1%nat = Some CIdle /\ executed s1 = [[3]] /\ cont s1 = [] /\ entered s1 = [1; 2] /\
+  out_of_container s1 = [3; 1; 2].
+Proof. vm_compute. repeat split; reflexivity. Qed.
+
+(* Sync is a call like the others; it changes nothing but the caller's program counter *)
+Example ex_sync :
+  let s0 := run ex_cfg (init 2) ex_pre in
+  let s1 := run ex_cfg s0 [EvCall 1 CSync] in
+  let s2 := run ex_cfg s1 [EvC 1] in
+  nth_error (cl s1) 1%nat = Some CSyncRun /\ core s2 = core s0 /\ executed s2 = executed s0.
+Proof. vm_compute. repeat split; reflexivity. Qed.
+
+(* buffers: the runtime gives every new array room for two more tasks; the first batch [1;2] is
+   handed out with spare capacity behind it, the container goes on in a new array; later adds,
+   an in-place append and a second removal do not touch it *)
+Example ex_buffers :
+  let gr := fun _ : nat => 2%nat in
+  let st1 := buf_run gr buf_init [BAdd 1; BAdd 2; BRemoveAll; BAdd 3] in
+  let st2 := buf_run gr st1 [BAdd 4; BRemoveAll; BAdd 5] in
+  b_out st1 = [mkSl 0 2] /\ b_heap st1 = [[1; 2; 0]; [3; 0; 0]] /\
+  b_out st2 = [mkSl 0 2; mkSl 1 2] /\ b_heap st2 = [[1; 2; 0]; [3; 4; 0]; [5; 0; 0]] /\
+  map (view (b_heap st2)) (b_out st2) = [[1; 2]; [3; 4]] /\ cur_view st2 = [5].
 Proof. vm_compute. repeat split; reflexivity. Qed.
